@@ -333,6 +333,23 @@ def run_model(ops):
     return [json.loads(l) for l in lines]
 
 
+def run_model_batch(ops_lists):
+    """one driver process for many independent op scripts (each starts with a reset)"""
+    flat = []
+    for ops in ops_lists:
+        assert ops and ops[0]["op"] == "reset"
+        flat.extend(ops)
+    if not flat:
+        return []
+    outs = run_model(flat)
+    res = []
+    i = 0
+    for ops in ops_lists:
+        res.append(outs[i:i + len(ops)])
+        i += len(ops)
+    return res
+
+
 def diff_outputs(ops, impl_outs, model_outs):
     """first index where implementation and model disagree, else None"""
     for i, (a, b) in enumerate(zip(impl_outs, model_outs)):
